@@ -224,7 +224,7 @@ class C09(Check):
                    'dist.update is compared through distogram.count / bounds / mean / bins against a reference fold with the same library']
     ANCHORS = ['rxsci/operators/scan.py', 'rxsci/operators/count.py', 'rxsci/data/to_list.py', 'rxsci/data/to_array.py', 'rxsci/math/dist/__init__.py']
     REQUIRED_TAGS = ['plain', 'mux', 'group', 'roll', 'roll_eq', 'split', 'time_split', 'generic', 'named', 'reduce', 'streaming', 'terminator',
-                     'factory', 'value-seed', 'mutable', 'empty-lifetime', 'scale', 'numpy-items', 'factory-that-is-not-a-function'] + PRELUDE_TAGS + ['op=' + n[0] for n in NAMED]
+                     'factory', 'value-seed', 'mutable', 'empty-lifetime', 'scale', 'numpy-items', 'factory-that-is-not-a-function', 'exact-number-items'] + PRELUDE_TAGS + ['op=' + n[0] for n in NAMED]
     REQUIRED_OBSERVED = ['accumulator_calls', 'terminator_calls', 'factory_calls', 'lifetimes_checked', 'identity_checks']
 
     def generate(self, rng, tier, shard, nshards):
@@ -255,6 +255,8 @@ class C09(Check):
                 case = {'kind': 'named', 'op': NAMED[(k // 3) % len(NAMED)], 'ctx': ctx, 'ctx_node': node, 'items': items}
                 if case['op'][0] in ('duc', 'min', 'max', 'to_list', 'batch', 'count') and (k // 3) % 4 == 1 and ctx != 'time_split':
                     case['conv'] = 'np'          # numpy.int64 items: comparisons return numpy.bool_, not the object True
+                elif case['op'][0] in ('variance', 'min', 'max', 'count', 'to_list', 'duc') and (k // 3) % 4 == 2 and ctx != 'time_split':
+                    case['conv'] = ('fraction', 'decimal')[(k // 12) % 2]
                 yield case
             else:
                 acc, seedn, terms = COMBOS[(k // 3) % len(COMBOS)]
@@ -477,6 +479,14 @@ class C09(Check):
             import numpy
             case = dict(case, items=[numpy.int64(x) for x in case['items']])
             out.tags.append('numpy-items')
+        elif case.get('conv') in ('fraction', 'decimal'):
+            # exact number types that mix with int but not (Decimal) or not exactly (Fraction) with float: a fold that
+            # seeds or scales with a float literal fails or silently rounds
+            import decimal
+            import fractions
+            mk = (lambda x: fractions.Fraction(x, 3)) if case['conv'] == 'fraction' else (lambda x: decimal.Decimal(x) / 4)
+            case = dict(case, items=[mk(x) for x in case['items']])
+            out.tags.append('exact-number-items')
         out.tags.append('op=' + node[0])
         if len(node) > 1 and node[1] is True:
             out.tags.append('reduce')
